@@ -89,6 +89,10 @@ def check(run):
         for fi, kws, c in sites:
             run.check(kws == attrs, r, fi.short, "'%s' carries %s" % (name, attrs), 'emitted with attributes %s, documented %s' % (kws, attrs), c)
     for name, sites in sorted(emitted.items()):
+        if name.startswith('?'):
+            run.fail(r, sites[0][0].short, 'meta-event name computed at run time: ' + name[1:], 'the name of an emitted meta-event is chosen by a condition: a documented '
+                     'meta-event is then delivered only in some cases', sites[0][2])
+            continue
         if name not in doc:
             run.check(name in LISTED_EXTRA and all(k == LISTED_EXTRA[name] for _, k, _ in sites), r, sites[0][0].short,
                       "extra meta-event '%s' is the listed deprecated one" % name, 'undocumented meta-event emitted', sites[0][2])
